@@ -55,15 +55,18 @@ Record cfg := mkCfg {
   fix_F8 : bool;     (* get_flight / close work on an in-memory identified store                    *)
   fix_C08a : bool;   (* opening a file without an index group marks the store as not identified     *)
   fix_C09a : bool;   (* merge refuses inputs that share a file name                                 *)
-  fix_C10a : bool    (* add() compares field sets with the open files, not with a cached item       *)
+  fix_C10a : bool;   (* add() compares field sets with the open files, not with a cached item       *)
+  fix_C07a : bool;   (* a stored trajectory larger than the whole cache is returned uncached, not refused *)
+  fix_C07b : bool    (* a file-backed store writes a trajectory larger than its cache without caching it  *)
 }.
-Definition fixed_cfg := mkCfg true true true true true true true.
-Definition coded_cfg := mkCfg false false false false false false false.
+Definition fixed_cfg := mkCfg true true true true true true true true true.
+Definition coded_cfg := mkCfg false false false false false false false false false.
 
 (* ------------------------------------------------------------------------------------------- *)
 (* stored data                                                                                 *)
 (* ------------------------------------------------------------------------------------------- *)
-Record item := mkItem { tag : Z; fid : option Z; whole : bool }.
+Record item := mkItem { tag : Z; fid : option Z; whole : bool; isize : nat }.
+   (* isize: what the LRU cache is charged for the trajectory (Trajectory.nbytes) *)
    (* whole = false: a record whose pointwise variables were written but whose required
       per-trajectory value was not (only the as-found add() produces these) *)
 
@@ -263,7 +266,19 @@ Definition store_len (fs : fsys) (h : handle) : nat :=
   end.
 
 (* __getitem__: the payload, or the error; the cache is updated on a miss that loads *)
-Definition get_item (fs : fsys) (h : handle) (i : nat) : handle * (Z + err) :=
+(* does a value of this size fit the LRU cache of a file-backed handle at all? *)
+Definition fits (h : handle) (sz : nat) : bool :=
+  match h_cap h with Some cp => sz <=? cp | None => true end.
+
+(* a trajectory just loaded from the files: cached if it fits; if it is larger than the whole cache the repaired code
+   hands it back uncached, the code as found lets cachetools raise "value too large" *)
+Definition loaded (c : cfg) (h : handle) (i : nat) (x : item) : handle * (Z + err) :=
+  if whole x then
+    if fits h (isize x) then (set_cache h ((i, x) :: h_cache h), inl (tag x))
+    else if fix_C07a c then (h, inl (tag x)) else (h, inr ETooLarge)
+  else (h, inr ECorrupt).
+
+Definition get_item (c : cfg) (fs : fsys) (h : handle) (i : nat) : handle * (Z + err) :=
   match h_src h with
   | SrcMem _ =>
       match nth_error (h_mem h) i with Some x => (h, inl (tag x)) | None => (h, inr EIndex) end
@@ -275,8 +290,7 @@ Definition get_item (fs : fsys) (h : handle) (i : nat) : handle * (Z + err) :=
           else match flookup p fs with
                | Some (NFile f) =>
                    match nc_load [f_items f] (h_snap h) i with
-                   | Some x => if whole x then (set_cache h ((i, x) :: h_cache h), inl (tag x))
-                               else (h, inr ECorrupt)
+                   | Some x => loaded c h i x
                    | None => (h, inr EIndex)
                    end
                | _ => (h, inr EAssert)
@@ -289,8 +303,7 @@ Definition get_item (fs : fsys) (h : handle) (i : nat) : handle * (Z + err) :=
           match merged_parts fs p with
           | Some l =>
               match nc_load (map f_items l) (h_snap h) i with
-              | Some x => if whole x then (set_cache h ((i, x) :: h_cache h), inl (tag x))
-                          else (h, inr ECorrupt)
+              | Some x => loaded c h i x
               | None => (h, inr EIndex)
               end
           | None => (h, inr EAssert)
@@ -301,15 +314,15 @@ Definition get_item (fs : fsys) (h : handle) (i : nat) : handle * (Z + err) :=
 Definition do_evict (keep : list nat) (h : handle) : handle :=
   match h_src h with SrcMem _ => h | _ => set_cache h (evict keep (h_cache h)) end.
 
-Fixpoint iter_go (fs : fsys) (h : handle) (idxs : list nat) (keeps : list (list nat)) (acc : list Z)
+Fixpoint iter_go (c : cfg) (fs : fsys) (h : handle) (idxs : list nat) (keeps : list (list nat)) (acc : list Z)
   : handle * out :=
   match idxs with
   | [] => (h, OItems (rev acc) None)
   | i :: r =>
-      match get_item fs h i with
+      match get_item c fs h i with
       | (h1, inl x) =>
           let h2 := match keeps with k :: _ => do_evict k h1 | [] => h1 end in
-          iter_go fs h2 r (tl keeps) (x :: acc)
+          iter_go c fs h2 r (tl keeps) (x :: acc)
       | (h1, inr e) => (h1, OItems (rev acc) (Some e))
       end
   end.
@@ -351,7 +364,7 @@ Definition holds_items (h : handle) : bool :=
   match h_src h with SrcMem _ => negb (Nat.eqb (length (h_mem h)) 0) | _ => negb (Nat.eqb (length (h_cache h)) 0) end.
 
 Definition item_of (t : traj) (ok : bool) : item :=
-  mkItem (t_tag t) (if ok then t_fid t else None) ok.
+  mkItem (t_tag t) (if ok then t_fid t else None) ok (t_size t).
 
 (* the state change of an insertion: counter, cache / memory, file creation, file write *)
 Definition insert (fs : fsys) (h : handle) (t : traj) (ok : bool) : fsys * handle :=
@@ -360,7 +373,7 @@ Definition insert (fs : fsys) (h : handle) (t : traj) (ok : bool) : fsys * handl
   let stale := if ok then (if ix then true else h_stale h) else h_stale h in
   match h_src h with
   | SrcMem cap =>
-      (fs, mkH (h_src h) (h_mode h) (S idx) (h_cache h) (h_mem h ++ [mkItem (t_tag t) (t_fid t) ok])
+      (fs, mkH (h_src h) (h_mode h) (S idx) (h_cache h) (h_mem h ++ [mkItem (t_tag t) (t_fid t) ok (t_size t)])
                (h_snap h) (Some ix) stale (h_pending h)
                (match h_msig h with Some s => Some s | None => Some (t_sig t) end) (h_cap h) (h_used h + t_size t) (h_iters h))
   | SrcFile p =>
@@ -368,7 +381,8 @@ Definition insert (fs : fsys) (h : handle) (t : traj) (ok : bool) : fsys * handl
                 else match flookup p fs with Some (NFile f) => f | _ => mkNc [] (t_sig t) ix [] end in
       let f1 := mkNc (f_items f0 ++ [item_of t ok]) (f_sig f0) (f_hasidx f0) (f_table f0) in
       (fupd p (NFile f1) fs,
-       mkH (h_src h) (h_mode h) (S idx) ((idx, mkItem (t_tag t) (t_fid t) ok) :: h_cache h) (h_mem h)
+       mkH (h_src h) (h_mode h) (S idx)
+           (if fits h (t_size t) then (idx, mkItem (t_tag t) (t_fid t) ok (t_size t)) :: h_cache h else h_cache h) (h_mem h)
            (h_snap h) (Some ix) stale false (h_msig h) (h_cap h) (h_used h) (h_iters h))
   | SrcMerged _ => (fs, h)
   end.
@@ -401,7 +415,11 @@ Definition add (c : cfg) (fs : fsys) (h : handle) (t : traj) : fsys * handle * o
         else
           (* the cache insertion: cachetools refuses a value larger than the whole cache ("value too large"),
              then an in-memory store refuses to evict *)
-          let toolarge := match cache_cap h with Some cp => cp <? t_size t | None => false end in
+          let toolarge := match h_src h with
+                          | SrcMem cap => cap <? t_size t
+                          | _ => if fix_C07b c then false
+                                 else match h_cap h with Some cp => cp <? t_size t | None => false end
+                          end in
           let full := match h_src h with SrcMem cap => cap <? h_used h + t_size t | _ => false end in
           match t_kind t with
           | TMissingReq =>
@@ -459,7 +477,7 @@ Definition get_flight (c : cfg) (fs : fsys) (h : handle) (id : Z) : fsys * handl
               | Some (NFile f) =>
                   if f_hasidx f then
                     match table_lookup id (f_table f) with
-                    | Some idx => let '(h2, r) := get_item fs1 h1 idx in
+                    | Some idx => let '(h2, r) := get_item c fs1 h1 idx in
                                   (fs1, h2, match r with inl t => OItem t | inr e => OErr e end)
                     | None => (fs1, h1, ONone)
                     end
@@ -472,7 +490,7 @@ Definition get_flight (c : cfg) (fs : fsys) (h : handle) (id : Z) : fsys * handl
                   match d_index d with
                   | IxFull tb =>
                       match table_lookup id tb with
-                      | Some idx => let '(h2, r) := get_item fs1 h1 idx in
+                      | Some idx => let '(h2, r) := get_item c fs1 h1 idx in
                                     (fs1, h2, match r with inl t => OItem t | inr e => OErr e end)
                       | None => (fs1, h1, ONone)
                       end
@@ -738,7 +756,7 @@ Definition step (c : cfg) (w : world) (o : op) : world * out :=
   | Inject p vals, None =>
       match flookup p fs with
       | Some _ => (w, OErr EExists)
-      | None => (mkW (fupd p (NFile (mkNc (map (fun v => mkItem v None true) vals) assoc_sig false [])) fs) None, OUnit)
+      | None => (mkW (fupd p (NFile (mkNc (map (fun v => mkItem v None true 1) vals) assoc_sig false [])) fs) None, OUnit)
       end
   | (Create _ _ | CreateMem _ | OpenR _ _ | OpenA _ _ | Merge _ _ _ | Inject _ _), Some _ => (w, OErr EBusy)
   | _, None => (w, OErr ENoHandle)
@@ -748,7 +766,7 @@ Definition step (c : cfg) (w : world) (o : op) : world * out :=
       | None => (w, OErr ENoHandle)
       | Some cur =>
           if cur <? store_len fs h then
-            let '(h1, r) := get_item fs h cur in
+            let '(h1, r) := get_item c fs h cur in
             match r with
             | inl t => (mkW fs (Some (set_iters h1 (@aupd nat nat Nat.eqb k (S cur) (h_iters h1)))), OItem t)
             | inr e => (mkW fs (Some h1), OErr e)
@@ -756,7 +774,7 @@ Definition step (c : cfg) (w : world) (o : op) : world * out :=
           else (w, OStop)
       end
   | GetA i ps, Some h =>
-      let '(h1, r) := get_item fs h i in
+      let '(h1, r) := get_item c fs h i in
       (mkW fs (Some h1),
        match r with
        | inl t => match col_values fs ps i with Some vs => OItemA t vs | None => OErr EIndex end
@@ -764,11 +782,11 @@ Definition step (c : cfg) (w : world) (o : op) : world * out :=
        end)
   | Add t, Some h => let '(fs1, h1, r) := add c fs h t in (mkW fs1 (Some h1), r)
   | Get i, Some h =>
-      let '(h1, r) := get_item fs h i in
+      let '(h1, r) := get_item c fs h i in
       (mkW fs (Some h1), match r with inl t => OItem t | inr e => OErr e end)
   | Len, Some h => (w, OLen (store_len fs h))
   | Iter keeps, Some h =>
-      let '(h1, r) := iter_go fs h (seqn (store_len fs h)) keeps [] in (mkW fs (Some h1), r)
+      let '(h1, r) := iter_go c fs h (seqn (store_len fs h)) keeps [] in (mkW fs (Some h1), r)
   | Sync, Some h =>
       match h_mode h with
       | MRead => (w, OErr ENotWritable)
@@ -887,7 +905,6 @@ Definition spec_step (s : sworld) (o : op) : sworld * out :=
                                               (used + t_size t)) m (sh_cap h) (sh_iters h))),
                       OIdx (length items))
             | SLFile p =>
-                if match sh_cap h with Some cp => cp <? t_size t | None => false end then (s, OErr ETooLarge) else
                 let st := match slookup p (s_fs s) with
                           | Some st => st
                           | None => mkS [] (t_sig t) (has_id t)
